@@ -28,6 +28,16 @@ func c06Payload(c *engine.Case, cmd *spec.Command, b []byte) {
 		c.Fail("decode-refused/"+cmd.Name, fmt.Sprintf("%s: %x refused: %v", cmd.Name, b, err), nil)
 		return
 	}
+	// the same bytes behind their CID through the MACCommand type: accepted like the payload alone,
+	// and to the same value
+	var asCmd lorawan.MACCommand
+	if err := asCmd.UnmarshalBinary(cmd.Uplink, append([]byte{cmd.CID}, b...)); err != nil {
+		c.Fail("decode-refused/"+cmd.Name+"/as-maccommand", fmt.Sprintf("%s: the payload decoder accepts %x, MACCommand.UnmarshalBinary refuses %02x%x: %v", cmd.Name, b, cmd.CID, b, err), nil)
+		return
+	} else if a, d := deepPrint(asCmd.Payload), deepPrint(lorawan.MACCommandPayload(pl)); a != d {
+		c.Fail("decode/"+cmd.Name+"/as-maccommand", fmt.Sprintf("%s bytes %x: MACCommand.UnmarshalBinary gives %s, the payload decoder %s", cmd.Name, b, a, d), nil)
+		return
+	}
 	if cmd.Judged != nil && !cmd.Judged(b) {
 		c.Outcome(cmd.Name + "/not-judged(spec revisions disagree)")
 		return
